@@ -381,6 +381,11 @@ def card_axioms():
                           patterns=[f(Store(A, x, True))]))
         out.append(ForAll([A, x], f(Store(A, x, False)) == If(Select(A, x), f(A) - 1, f(A)),
                           patterns=[f(Store(A, x, False))]))
+        wit = Function('wit_' + mangle(ty), sort_of(ty), sort_of(et))
+        # a non-empty finite set has a member; removing a member decreases the cardinality by one
+        out.append(ForAll([A], Implies(f(A) >= 1, Select(A, wit(A))), patterns=[f(A)]))
+        out.append(ForAll([A, x], Implies(Select(A, x), f(A) == 1 + f(Store(A, x, False))),
+                          patterns=[z3.MultiPattern(f(A), Select(A, x))]))
         y2 = FreshConst(sort_of(et), 'cy2')
         out.append(ForAll([A, x], Implies(Select(A, x), f(A) >= 1), patterns=[z3.MultiPattern(f(A), Select(A, x))]))
         out.append(ForAll([A, x, y2], Implies(And(f(A) == 1, Select(A, x), Select(A, y2)), x == y2),
